@@ -23,6 +23,9 @@ structure Multihash where
   digest : List UInt8
   deriving DecidableEq, Repr
 
+/-- The type invariant of a Rust `Multihash<64>` value: `code: u64`, `size ≤ 64`. -/
+def Wf (mh : Multihash) : Prop := mh.code < 2 ^ 64 ∧ mh.digest.length ≤ S
+
 /-- `Multihash::wrap(code, input_digest)`. -/
 def wrap (code : Nat) (input : List UInt8) : Except Err Multihash :=
   if input.length > S then .error (.invalidSize input.length) else .ok ⟨code, input⟩
